@@ -8,12 +8,12 @@ def run(ctx):
     R, items = run_mode(ctx, 5)
     h.stats['inverse_pairs_generated'] = len(items)
     h.samples.append({'pair': 'Speed(DynamicPressure, MassDensity) recovers Speed from DynamicPressure(MassDensity, Speed)',
-                      'grid': 'a, b = m*2^e, e in {-40,-12,-1,0,3,17,40} (+-20 float), m in {1, 1.375, 1.9}, component i scaled by (1+i/16)'})
+                      'grid': 'a, b = m*2^e, e in {-40,-12,-1,0,3,17,40} (+-20 float), m in {1, 1.375, 1.9, and one that puts the second operand next to 1}, component i scaled by (1+i/16)'})
     rule = ('inverse pairs derived mechanically from the discovered relation set: every two-argument constructor C(A,B) with a constructor '
             'A(C,B)/A(B,C) (and for the second operand), every operator without a constructor twin paired with its opposite operator '
             '(+ with -, * with /, in the operand orders that undo it), every one-argument constructor / member pair A->C, C->A starting '
             'from the smaller shape; x 3 numeric types x positive magnitude grid 2^e*m over 80 binades (40 for float). Oracle: '
-            'g(f(a,b),b) == a within the largest change of g when any component of c or b moves by +-1,+-2,+-4 ulp, floored at 4 ulp of '
+            'g(f(a,b),b) == a within the largest change of g when any component of the rounded intermediate c moves by +-1,+-2,+-4 ulp (the shared exact operand b is not perturbed), floored at 8 ulp of '
             '|a| (perturbation oracle R3 with the implementation as its own sensitivity probe); non-finite intermediates skipped and counted. '
             'distinct_nontrivial = inverse pairs x numeric types checked')
     return vf.finish(ctx, 'exploration', rule, h.stat('round_trips'), h.stat('inverse_pairs_checked'), True,
